@@ -93,10 +93,9 @@ impl PublicKey {
         salt: &str,
         signature: &Signature,
     ) -> Result<(), VerificationError> {
-        let pk =
-            fluence_keypair::PublicKey::decode(&self.0).map_err(VerificationError::InvalidKey)?;
-        let signature = fluence_keypair::Signature::decode(signature.0.to_vec())
-            .map_err(VerificationError::InvalidSignature)?;
+        let pk = decode_public_key(&self.0).map_err(VerificationError::InvalidKey)?;
+        let signature =
+            decode_signature(&signature.0).map_err(VerificationError::InvalidSignature)?;
 
         let serialized_value = SaltedData::new(&value, salt).serialize();
         Ok(pk.verify(&serialized_value, &signature)?)
@@ -104,15 +103,30 @@ impl PublicKey {
 
     pub fn to_peer_id(&self) -> Result<String, KeyError> {
         // TODO cache the public key, or verify key format in Rkyv verification/deserialization
-        let pk = fluence_keypair::PublicKey::decode(&self.0)?;
+        let pk = decode_public_key(&self.0)?;
         Ok(pk.to_peer_id().to_string())
     }
 
     pub fn validate(&self) -> Result<(), KeyError> {
-        let pk = fluence_keypair::PublicKey::decode(&self.0)?;
+        let pk = decode_public_key(&self.0)?;
         let key_format = pk.get_key_format();
         validate_with_key_format((), key_format)
     }
+}
+
+// fluence_keypair's decoders index the format byte without checking that it is there
+fn decode_public_key(bytes: &[u8]) -> Result<fluence_keypair::PublicKey, DecodingError> {
+    if bytes.is_empty() {
+        return Err(DecodingError::InvalidTypeByte);
+    }
+    fluence_keypair::PublicKey::decode(bytes)
+}
+
+fn decode_signature(bytes: &[u8]) -> Result<fluence_keypair::Signature, DecodingError> {
+    if bytes.is_empty() {
+        return Err(DecodingError::InvalidTypeByte);
+    }
+    fluence_keypair::Signature::decode(bytes.to_vec())
 }
 
 impl ToString for PublicKey {
